@@ -113,6 +113,40 @@ pub const TEMPLATES: &[&str] = &[
     "local t = { [ [[k]] ] = 1 }",
     "local s = t [ [[k]] ]",
     "local s = # [[abc]]",
+    // statements ending in every kind of value, followed by a statement that starts with a parenthese
+    "local s = `a{ b }`\n( g ) ( )",
+    "local s = `a`\n( g ) ( )",
+    "local s = 'str'\n( g ) ( )",
+    "local s = [[str]]\n( g ) ( )",
+    "local s = 1\n( g ) ( )",
+    "local s = { }\n( g ) ( )",
+    "local s = function ( ) end\n( g ) ( )",
+    "local s = nil\n( g ) ( )",
+    "local s = true\n( g ) ( )",
+    "local s = ...\n( g ) ( )",
+    "local s = a :: T\n( g ) ( )",
+    "local s = if a then b else `c`\n( g ) ( )",
+    "local s = - 1\n( g ) ( )",
+    "local s = a .. `c`\n( g ) ( )",
+    "s = `a{ b }`\n( g ) ( )",
+    "s ..= `a{ b }`\n( g ) ( )",
+    "repeat until `a`\n( g ) ( )",
+    "local s\n( g ) ( )",
+    "local s : T\n( g ) . x = 1",
+    "type T = U\n( g ) ( )",
+    "local s = a\n; ( g ) ( )",
+    "local s = f ( )\n; ( g ) ( )",
+    // fewer values than variables
+    "local a , b = ...",
+    "const a , b = ...",
+    "const a , b = f ( )",
+    "const a , b = ( f ( ) )",
+    "const a , b = 1",
+    "const a , b , c = 1 , ...",
+    "const a , b , c = 1 , nil",
+    "local a , b , c = 1",
+    "local a , b = nil",
+    "local a , b = f ( ) , nil",
 ];
 
 pub const TRIVIA: &[&str] = &[" ", "\t", "\n", "\r\n", "\n\n", "--c\n", "--c\r\n", "--[[c]]", "--[==[\nc\n]==]", "--[a[c\n", "--\n", "  ", " --[[a]] --[[b]] ", "--[[ ]] ]]\n", "--[[c]]\n"];
